@@ -83,8 +83,52 @@ def chars_body(D) -> str:
     body += ("/-- code points of the local `alphabet` of `find_boundaries_of_current_word` "
              "(`string.ascii_letters + \"0123456789_\"`), sorted -/\n")
     body += "def boundaryAlphabet : List Nat := [" + ", ".join(str(o) for o in alpha) + "]\n\n"
+    writers = cache_writers(D)
+    body += ("/-- qualified names of the functions of document.py that assign `<x>._cache.lines` / "
+             "`<x>._cache.line_indexes`\n    (or call setattr / touch `__dict__` of a `_cache`), sorted -/\n")
+    body += "def cacheWriters : List String := [" + ", ".join(G.lstr(w) for w in writers) + "]\n\n"
     body += "end Ptk.Gen.C02\n"
     return body
+
+
+def cache_writers(D):
+    """every def in document.py that stores into a line-table slot of a `_cache` object"""
+    import ast
+    import inspect
+
+    tree = ast.parse(inspect.getsource(D))
+    found = set()
+
+    def is_cache(node):
+        return isinstance(node, ast.Attribute) and node.attr == "_cache"
+
+    def visit(node, qual):
+        for child in ast.iter_child_nodes(node):
+            if isinstance(child, (ast.FunctionDef, ast.AsyncFunctionDef, ast.ClassDef)):
+                visit(child, qual + [child.name])
+                continue
+            for sub in ast.walk(child):
+                targets = []
+                if isinstance(sub, ast.Assign):
+                    targets = sub.targets
+                elif isinstance(sub, (ast.AugAssign, ast.AnnAssign)):
+                    targets = [sub.target]
+                elif isinstance(sub, ast.Delete):
+                    targets = sub.targets
+                elif (isinstance(sub, ast.Call) and isinstance(sub.func, ast.Name) and sub.func.id in ("setattr", "delattr")
+                      and sub.args and is_cache(sub.args[0])):
+                    found.add(".".join(qual) or "<module>")
+                for tg in targets:
+                    for t in ast.walk(tg):
+                        if isinstance(t, ast.Attribute) and t.attr in ("lines", "line_indexes", "__dict__") and is_cache(t.value):
+                            found.add(".".join(qual) or "<module>")
+            # nested defs inside statements (e.g. under `if`) are rare here; walk them too
+            for sub in ast.walk(child):
+                if isinstance(sub, (ast.FunctionDef, ast.AsyncFunctionDef)) and sub is not child:
+                    visit(sub, qual + [sub.name])
+
+    visit(tree, [])
+    return sorted(found)
 
 
 def _method_ast(D, name):
